@@ -575,6 +575,28 @@ func Explore(fn *ssa.Function, b *ssa.BasicBlock, idx int, pred *ssa.BasicBlock,
 				// new helper functions (extracted by a refactoring) are always explored in place
 				if cal := x.Call.StaticCallee(); cal != nil && newHelpers[cal] && cal.Blocks != nil {
 					inline = func(*State, *ssa.Call) (*ssa.Function, bool) { return cal, false }
+				} else if cal == nil && !x.Call.IsInvoke() && len(st.Cont) > 0 {
+					// inside an inlined helper: a call of a function-typed parameter runs the closure (or
+					// function) the caller passed in - "withRetry(func() error { ... })"
+					switch fv := st.ArgOf(x.Call.Value).(type) {
+					case *ssa.MakeClosure:
+						if f, ok := fv.Fn.(*ssa.Function); ok && f.Blocks != nil {
+							mc := fv
+							inline = func(s *State, _ *ssa.Call) (*ssa.Function, bool) {
+								for k, free := range f.FreeVars {
+									if k < len(mc.Bindings) {
+										s.Alias[free] = s.Resolve(mc.Bindings[k])
+									}
+								}
+								return f, false
+							}
+						}
+					case *ssa.Function:
+						if fv.Blocks != nil && (newHelpers[fv] || fv.Parent() != nil) {
+							f := fv
+							inline = func(*State, *ssa.Call) (*ssa.Function, bool) { return f, false }
+						}
+					}
 				}
 			}
 			if inline != nil {
